@@ -36,6 +36,9 @@ static struct shared *g;
 
 static int falsev(void) { g->evals++; return 0; }
 static int truev(void) { g->evals++; return 1; }
+static int one(void) { return g != 0; }       /* second operands: not counted as evaluations of the condition */
+static int zero(void) { return g == 0; }
+static int two(void) { return 2 * (g != 0); }
 
 #define RET_CONT 11          /* wrapper ran to its end */
 #define RET_VAL 77           /* the "stated failure value" */
@@ -71,16 +74,18 @@ static void w_fn_error(void) { libast_print_error(MSG, ++g->evals); g->cont = 1;
 static void w_fn_warning(void) { libast_print_warning(MSG, ++g->evals); g->cont = 1; }
 static void w_fn_fatal(void) { libast_fatal_error(MSG, ++g->evals); g->cont = 1; }
 static void w_abort(void) { ABORT(); g->cont = 1; }
-static void w_assert_t(void) { ASSERT(truev()); g->cont = 1; }
-static void w_assert_f(void) { ASSERT(falsev()); g->cont = 1; }
-static int w_assert_rval_t(void) { ASSERT_RVAL(truev(), RET_VAL); g->cont = 1; return RET_CONT; }
-static int w_assert_rval_f(void) { ASSERT_RVAL(falsev(), RET_VAL); g->cont = 1; return RET_CONT; }
+/* conditions are compound expressions, the way the library writes its own (a == b, p && n): a macro that uses its argument
+ * without parentheses misreads them */
+static void w_assert_t(void) { ASSERT(truev() == one()); g->cont = 1; }
+static void w_assert_f(void) { ASSERT(truev() == two()); g->cont = 1; }
+static int w_assert_rval_t(void) { ASSERT_RVAL(truev() && one(), RET_VAL); g->cont = 1; return RET_CONT; }
+static int w_assert_rval_f(void) { ASSERT_RVAL(truev() && zero(), RET_VAL); g->cont = 1; return RET_CONT; }
 static void w_notreached(void) { ASSERT_NOTREACHED(); g->cont = 1; }
 static int w_notreached_rval(void) { ASSERT_NOTREACHED_RVAL(RET_VAL); g->cont = 1; return RET_CONT; }
-static void w_require_t(void) { REQUIRE(truev()); g->cont = 1; }
-static void w_require_f(void) { REQUIRE(falsev()); g->cont = 1; }
-static int w_require_rval_t(void) { REQUIRE_RVAL(truev(), RET_VAL); g->cont = 1; return RET_CONT; }
-static int w_require_rval_f(void) { REQUIRE_RVAL(falsev(), RET_VAL); g->cont = 1; return RET_CONT; }
+static void w_require_t(void) { REQUIRE(truev() == one()); g->cont = 1; }
+static void w_require_f(void) { REQUIRE(truev() == two()); g->cont = 1; }
+static int w_require_rval_t(void) { REQUIRE_RVAL(truev() && one(), RET_VAL); g->cont = 1; return RET_CONT; }
+static int w_require_rval_f(void) { REQUIRE_RVAL(truev() && zero(), RET_VAL); g->cont = 1; return RET_CONT; }
 
 enum kind { K_D, K_DIF, K_DPRINTFN, K_DPRINTF0, K_NEVER, K_MOO, K_FN_DPRINTF, K_FN_ERROR, K_FN_WARNING, K_FN_FATAL, K_ABORT,
             K_ASSERT_T, K_ASSERT_F, K_NOTREACHED, K_REQUIRE_T, K_REQUIRE_F };
